@@ -10,4 +10,4 @@ CONSTANTS
   MaxBatchOps = 0
   Stops = {0, 1}
   Muts = {TRUE}
-  Ops = {"Get", "Has", "Set", "Delete", "DeletePrefix", "Clear", "Flush", "Close", "Realm", "Batched", "Iterate", "IterateKeys", "WithRealm", "WithExtendedRealm"}
+  Ops = {"Get", "Has", "Set", "Delete", "DeletePrefix", "Clear", "Flush", "Close", "Realm", "Batched", "Iterate", "IterMut", "IterateKeys", "WithRealm", "WithExtendedRealm"}
